@@ -397,7 +397,10 @@ def run(ck):
         ck.floor('R1.7', 0, 1, 'fn finalize_completion_values')
     else:
         ck.analysed(fc['path'])
-        ext = [c for c in H.calls_in(fc['body']) if c.get('m') in ('extend', 'push', 'append') and 'to_visit' in pp(c['recv'])]
+        # the walk list is the one popped by the loop that rewrites terminators
+        ploop = next((n for n in walk(fc['body']) if n.get('k') == 'Loop' and any(x.get('k') == 'Assign' and x['l'].get('k') == 'Field' and x['l'].get('f') == 'terminator' for x in walk(n))), None)
+        wl = next((H.root_local(c['recv']) for c in H.calls_in(ploop) if c.get('m') in ('pop', 'pop_front')), None) if ploop is not None else None
+        ext = [c for c in H.calls_in(ploop) if c.get('m') in ('extend', 'push', 'append', 'push_back') and wl is not None and (H.root_local(c['recv']) or {}).get('hid') == wl.get('hid')] if ploop is not None else []
         ok = False
         why = '%d pushes onto the walk list' % len(ext)
         if len(ext) == 1:
